@@ -245,8 +245,9 @@ func encodeString(s string) ([]byte, error) {
 			continue
 		}
 		c, size := utf8.DecodeRuneInString(s[i:])
-		if c == utf8.RuneError {
+		if c == utf8.RuneError && size == 1 {
 			// don't accept anything that isn't valid UTF-8, no exceptions.
+			// (A size of 3 is U+FFFD itself, which is a valid character.)
 			return nil, &json.UnsupportedValueError{Value: reflect.ValueOf(s), Str: fmt.Sprintf("%q", s)}
 		}
 		i += size
